@@ -455,6 +455,35 @@ def run(R):
     else:
         R.violation("C05.star", "create_joined_column_mapping", "`*` over a join does not list the queried table's columns followed by the joined "
                                                                   "table's columns in definition order (%s)" % why, [cm.loc()])
+    # ---- the joined side stays addressable by its table-qualified name: that binding is made after the queried row's names are in
+    #      the map and nothing overwrites it afterwards (with the same table on both sides the qualified names of the two sides coincide)
+    R.rule("C05.qualified", "in the pair's column mapping the joined table's qualified name is bound to the joined value unconditionally, "
+                            "after the queried row's mapping was built, and no later insert / extend can replace it")
+    qins = [c for c in cm.calls if re.search(r"hash::map::HashMap::insert$", short(c.name)) and len(c.args) > 1 and
+            "fully_qualified_column_names" in F.source_fields(cm, c.args[1], depth=10) + [x for o in F.origins(cm, c.args[1], depth=10)
+                                                                                         if o.kind == "call" and o.call.args for x in F.source_fields(cm, o.call.args[0], depth=8)]]
+    ccm = [c for c in cm.calls if short(c.name).endswith("ExecutionEngine::create_columns_mapping")]
+    if not qins:
+        R.violation("C05.qualified", "create_joined_column_mapping|no-qualified", "the joined row's values are no longer bound to the joined "
+                    "table's qualified column names", [cm.loc()])
+    else:
+        q = qins[0]
+        lpq = PR.loop_of(cm, q.bb)
+        after = cm.reachable_from(q.bb)
+        later = [c for c in cm.calls if c.bb in after and (lpq is None or c.bb not in lpq[1]) and
+                 re.search(r"hash::map::HashMap::(extend|insert|remove|retain|clear)$|Extend<.*>>::extend$", short(c.name)) and
+                 c.args and "HashMap<&str, &sqlgrep::model::Value" in (c.args[0].get("ty") or "").replace("'a ", "")]
+        late_build = [c for c in ccm if c.bb in after and (lpq is None or c.bb not in lpq[1])]
+        cond = [1 for (sw, lab, tgt) in F.guards_dominating(cm, q.bb) if lpq is not None and sw in lpq[1] and F.switch_info(cm, sw) and
+                F.switch_info(cm, sw)[0] == "bool"]
+        if later or late_build or cond:
+            R.violation("C05.qualified", "create_joined_column_mapping|overwritten",
+                        "the binding of the joined table's qualified name to the joined value %s: when both sides use the same table the "
+                        "qualified name then yields the queried row's value (the pair (r, s) is seen as (r, r))"
+                        % ("is made under a condition" if cond and not (later or late_build) else
+                           "is followed by %s into the same map" % short((later or late_build)[0].name).split("::")[-1]), [(later or late_build or [q])[0].loc()])
+        else:
+            R.ok("C05.qualified", "create_joined_column_mapping", "qualified joined name bound last and unconditionally", q.loc())
     # ---- every pair gets its own column mapping: the map the partner's columns are inserted into is created inside the partner loop
     R.rule("C05.fresh", "the column mapping of a pair is built from the queried row anew for every partner: no map that already holds a "
                         "previous partner's columns is extended (the clash guard `!contains_key(name)` would keep the first partner's value)")
